@@ -43,6 +43,7 @@ import (
 	"github.com/refraction-networking/conjure/pkg/phantoms"
 	"github.com/refraction-networking/conjure/pkg/regserver/overrides"
 	"github.com/refraction-networking/conjure/pkg/station/lib"
+	stationlog "github.com/refraction-networking/conjure/pkg/station/log"
 	"github.com/refraction-networking/conjure/pkg/transports/connecting/dtls"
 	"github.com/refraction-networking/conjure/pkg/transports/wrapping/min"
 	"github.com/refraction-networking/conjure/pkg/transports/wrapping/obfs4"
@@ -481,7 +482,7 @@ func c12GenRequest(rt *rapid.T, ph []C12PhGen, bidir bool) C12Request {
 		q.Disable = &f
 	}
 	q.Covert = rapid.SampledFrom([]string{"192.0.2.10:443", "[2001:db8::10]:443", "example.com:80", ""}).Draw(rt, "covert")
-	if c12Chance(rt, "has_source", 1, 3) {
+	if c12Chance(rt, "has_source", 1, 2) {
 		s := int32(rapid.SampledFrom([]pb.RegistrationSource{pb.RegistrationSource_Unspecified, pb.RegistrationSource_Detector, pb.RegistrationSource_API, pb.RegistrationSource_DetectorPrescan, pb.RegistrationSource_BidirectionalAPI, pb.RegistrationSource_DNS, pb.RegistrationSource_BidirectionalDNS}).Draw(rt, "source"))
 		q.Source = &s
 	}
@@ -589,9 +590,9 @@ func C12GenUsage(rt *rapid.T) C12UsageCase {
 	}
 	// extras share the remaining CIDRs or reuse one (a zero-weight duplicate range cannot be told
 	// apart from its twin, so extras only use fresh CIDRs when there are any left)
-	nx := rapid.IntRange(0, 2).Draw(rt, "n_extra")
+	nx := rapid.IntRange(0, 3).Draw(rt, "n_extra")
 	for i := 0; i < nx && next < len(perm); i++ {
-		tr := rapid.SampledFrom([]string{"Min_Transport", "Prefix_Transport", "Obfs4_Transport"}).Draw(rt, "extra_transport")
+		tr := rapid.SampledFrom([]string{"Min_Transport", "Min_Transport", "Prefix_Transport", "Prefix_Transport", "Obfs4_Transport"}).Draw(rt, "extra_transport")
 		r.Subnets = append(r.Subnets, C12OvrSubnet{CIDR: perm[next], Weight: 0, Transport: tr, Port: 80, PrefixID: 1})
 		next++
 	}
@@ -691,6 +692,7 @@ func C12NewEnv(tb C12TB) *C12Env {
 			tb.Fatalf("harness problem: station AddTransport: %v", err)
 		}
 	}
+	rm.Logger = stationlog.New(io.Discard, "", 0)
 	e.Station = rm
 	lg := logrus.New()
 	lg.SetOutput(io.Discard)
@@ -1112,29 +1114,47 @@ func c12TransportName(tt pb.TransportType) string {
 	return ""
 }
 
-// c12Station ingests a forwarded message the way parseRegMessage does and returns the v4 / v6
+// c12Station ingests a forwarded message through parseRegMessage itself and returns the v4 / v6
 // registrations (nil when the station does not create one for that family) and their errors.
 func c12Station(e *C12Env, sel *phantoms.PhantomIPSelector, msg []byte) (fwd *pb.C2SWrapper, want4, want6 bool, r4, r6 *lib.DecoyRegistration, e4, e6 error, err error) {
 	e.Station.PhantomSelector = sel
-	parsed := &pb.C2SWrapper{}
-	if err = proto.Unmarshal(msg, parsed); err != nil {
+	fwd = &pb.C2SWrapper{}
+	if err = proto.Unmarshal(msg, fwd); err != nil {
 		return nil, false, false, nil, nil, nil, nil, err
 	}
-	fwd = proto.Clone(parsed).(*pb.C2SWrapper)
-	if parsed.GetRegistrationAddress() == nil {
-		parsed.RegistrationAddress = make([]byte, 16)
+	// which registrations the station is expected to build (family rule of parseRegMessage on the
+	// unchanged tree: IPv4 only for a client whose forwarded address is IPv4, IPv6 whenever supported)
+	src := net.IP(fwd.GetRegistrationAddress())
+	want4 = fwd.GetRegistrationPayload().GetV4Support() && e.Station.EnableIPv4 && src.To4() != nil
+	want6 = fwd.GetRegistrationPayload().GetV6Support() && e.Station.EnableIPv6
+	// the real ingest entry, on the forwarded bytes, as an ingest worker does
+	regs, perr := e.Station.C12ParseRegMessage(append([]byte(nil), msg...))
+	n := 0
+	if want4 {
+		n++
 	}
-	if parsed.GetDecoyAddress() == nil {
-		parsed.DecoyAddress = make([]byte, 16)
+	if want6 {
+		n++
 	}
-	src := net.IP(parsed.GetRegistrationAddress())
-	if parsed.GetRegistrationPayload().GetV4Support() && e.Station.EnableIPv4 && src.To4() != nil {
-		want4 = true
-		r4, e4 = e.Station.NewRegistrationC2SWrapper(parsed, false)
+	if perr == nil && len(regs) != n {
+		perr = fmt.Errorf("station ingest built %d registrations from the forwarded message, %d expected (v4=%v v6=%v)", len(regs), n, want4, want6)
 	}
-	if parsed.GetRegistrationPayload().GetV6Support() && e.Station.EnableIPv6 {
-		want6 = true
-		r6, e6 = e.Station.NewRegistrationC2SWrapper(parsed, true)
+	if perr != nil {
+		if want4 {
+			e4 = perr
+		}
+		if want6 {
+			e6 = perr
+		}
+		return
+	}
+	i := 0
+	if want4 {
+		r4 = regs[i]
+		i++
+	}
+	if want6 {
+		r6 = regs[i]
 	}
 	return
 }
@@ -1533,7 +1553,18 @@ func C12Run(e *C12Env, c C12Case, entry C12Entry) (res C12Result) {
 		res.class("v6-only")
 	}
 	res.class("transport:" + tt.String())
-	res.NonTrivial = forgedAny || resp.GetTransportParams() != nil || (sel4 != nil && got4 != nil && !got4.Equal(sel4))
+	// the source label the stations see is the client's whenever it set one other than Unspecified
+	changed := resp.GetTransportParams() != nil || (sel4 != nil && got4 != nil && !got4.Equal(sel4))
+	res.class("forwarded-source:" + fwd.GetRegistrationSource().String())
+	switch fwd.GetRegistrationSource() {
+	case pb.RegistrationSource_BidirectionalAPI, pb.RegistrationSource_BidirectionalDNS:
+	default:
+		res.class("forwarded-source-not-bidirectional")
+		if changed && (want4 || want6) {
+			res.class("forwarded-source-not-bidirectional-and-registrar-changed-something")
+		}
+	}
+	res.NonTrivial = forgedAny || changed
 	return
 }
 
@@ -1636,9 +1667,38 @@ func C12RunUsage(e *C12Env, u C12UsageCase) (res C12Result, rows []C12UsageRow) 
 			rows[hit].Count++
 		}
 		res.class(fmt.Sprintf("k=%d:%s", k, tname))
-		if overridden < u.N*9/10 {
-			res.Harness = fmt.Sprintf("only %d of %d %v requests were overridden although the configuration says 100 %%; the tally is meaningless", overridden, u.N, tt)
-			return
+		// order classes: a zero-weight entry listed before / between / after the weighted ones
+		firstW, lastW := -1, -1
+		idx := 0
+		var zeros []int
+		for _, s := range u.Reg.Subnets {
+			if s.Transport != tname {
+				continue
+			}
+			if s.Weight > 0 {
+				if firstW < 0 {
+					firstW = idx
+				}
+				lastW = idx
+			} else {
+				zeros = append(zeros, idx)
+			}
+			idx++
+		}
+		for _, z := range zeros {
+			switch {
+			case z < firstW:
+				res.class("zero-weight-before-all-weighted")
+			case z < lastW:
+				res.class("zero-weight-before-a-weighted")
+			default:
+				res.class("zero-weight-last")
+			}
+		}
+		if overridden < u.N {
+			// not judged by itself (the property speaks about which subnets are used), but it is
+			// evidence and goes into the message of a never-chosen finding
+			res.class("requests-not-overridden-at-100-percent")
 		}
 		for j, row := range rows {
 			if row.Subnet.Transport != tname || row.Subnet.Weight <= 0 {
@@ -1657,8 +1717,8 @@ func C12RunUsage(e *C12Env, u C12UsageCase) (res C12Result, rows []C12UsageRow) 
 						tally = append(tally, fmt.Sprintf("%s(w=%g)=%d", r2.Subnet.CIDR, r2.Subnet.Weight, r2.Count))
 					}
 				}
-				res.bad("usage:subnet-never-chosen", "override subnet #%d %s for %s has weight %g (%.0f %% share) but was never chosen in %d overridden registrations; tally in configuration order: %s",
-					j, row.Subnet.CIDR, tname, row.Subnet.Weight, 100*row.Subnet.Weight/total, overridden, strings.Join(tally, " "))
+				res.bad("usage:subnet-never-chosen", "override subnet #%d %s for %s has weight %g (%.0f %% share) but was never chosen in %d registrations at 100 %% override (%d overridden, %d kept their own phantom); tally in configuration order: %s",
+					j, row.Subnet.CIDR, tname, row.Subnet.Weight, 100*row.Subnet.Weight/total, u.N, overridden, u.N-overridden, strings.Join(tally, " "))
 			}
 		}
 	}
